@@ -108,15 +108,15 @@ def handler : Driver.Handler := fun c i => do
   let o2 := diff "PredicateEvaluator" implPe implInterp
   let o3 := match implPe0 with | some p0 => diff "QE_COMPILE=0 vs default (PredicateEvaluator)" implPe p0 | none => none
   let oracle := match o1 with | some w => some w | none => (match o2 with | some w => some w | none => o3)
-  -- attribution to C06-F1: impl = model with exactly the IEEE switch on, and the repaired compiled model equals the interpreter
-  let fixedOk := match mCe Dev.none with | some ce => ce == mInterp | none => true
-  let attr := if oracle.isSome && k && fixedOk then some "C06-F1" else none
+  -- finding C06-F1 (IEEE f64 comparison) is fixed (7400978): nothing is attributed; a recurrence is a violation, tagged below
+  let attr : Option String := none
+  let regressed := oracle.isSome && implCe == mCe Dev.ieee && mCe Dev.ieee != mCe Dev.none
   let special := rows.any (fun r => r.any isSpecial)
   let hasNull := rows.any (fun r => r.any Val.isNull)
   let tags := (tagsOf e).eraseDups ++ [if implCompiled then "compiled" else "declined"]
     ++ (if n == 0 then ["len0"] else if n % 1024 == 0 then ["len-multiple"] else if n > 1024 then ["len-remainder"] else ["len-short"])
     ++ (if special then ["special-floats"] else []) ++ (if hasNull then ["nulls"] else [])
-    ++ (if mCe Dev.current != mCe Dev.none then ["ieee-visible"] else [])
+    ++ (if mCe Dev.ieee != mCe Dev.none then ["ieee-visible"] else []) ++ (if regressed then ["C06-F1-regressed"] else [])
   pure { model := match mCe Dev.current with | some o => outToJson o | none => Json.null,
          k := k, oracle := oracle, nt := implCompiled && n > 0, tags := tags, attr := attr }
 
